@@ -20,7 +20,7 @@ func init() { register(c12{}) }
 func (c12) Meta() core.Meta {
 	return core.Meta{
 		ID: "C12", Level: "exploration",
-		Rule:        "case i = f(seed,i): JSON/XML-shaped Map + 1..4 key pairs old:new. Old parts are plain/wildcard/indexed paths derived from the Map (values that are maps and lists are preferred: aliasing only matters then), new parts are dot-paths that are disjoint, share a prefix, are equal, or extend one another (n0 / n0.sub), now and then with blank-edged segments, empty segments or a trailing dot; keys in 1/4 of the cases from the hostile alphabet (blank-edged names beside their twins, digit strings, '/'); 1/6 of the cases carry a malformed pair (old:, :new, a:b:c, wildcard or index in new). Monitors: receiver fingerprint before == after for every pair list; for pair lists in which no new path equals or extends another the result equals the reference projection (ValuesForPath(old) as single value or list at each new path, empty olds skipped, nothing else); malformed pairs => error; j2x.JsonNewJson agrees. Non-trivial: >=2 pairs with non-empty old values; distinct by hash(map,pairs).",
+		Rule:        "case i = f(seed,i): JSON/XML-shaped Map + 1..4 key pairs old:new. Old parts are plain/wildcard/indexed paths derived from the Map (values that are maps and lists are preferred: aliasing only matters then), new parts are dot-paths that are disjoint, share a prefix, are equal, or extend one another (n0 / n0.sub), now and then with blank-edged segments, empty segments or a trailing dot; keys in 1/4 of the cases from the hostile alphabet (blank-edged names beside their twins, digit strings, '/'); 1/6 of the cases carry a malformed pair (old:, :new, a:b:c, wildcard or index in new). Chain mode (1/5): 3..5 pairs with new paths P,..,P,P.sub[,P.sub.x] in that order, lists inside lists allowed, receiver clause only. Monitors: receiver fingerprint before == after for every pair list; for pair lists in which no new path equals or extends another the result equals the reference projection (ValuesForPath(old) as single value or list at each new path, empty olds skipped, nothing else); malformed pairs => error; j2x.JsonNewJson agrees. Non-trivial: >=2 pairs with non-empty old values; distinct by hash(map,pairs).",
 		Assumptions: []string{"reference projection uses the C07 reference denotation of the old paths", "an empty-string pair argument is skipped (code comment; docs silent) and is not generated"},
 		Anchors:     []string{"Map.NewMap", "addNewVal", "j2x.JsonNewJson"},
 		Floors:      map[string]int64{"pairs:overlapping": 1000, "pairs:exact-content-checked": 3000, "old:container-valued": 2000, "old:multi-valued": 300, "malformed": 1000, "newpath:shared-prefix": 300},
